@@ -205,15 +205,71 @@ theorem process_error (srv : Server) (env : Env) (data : Bytes) (e : ParseErr)
     process srv env data = errorOutcome env (errStatus e) := by
   cases e <;> simp [process, processCalls, h, hp, errStatus, outcomeOf_errorArm]
 
-/-- does the buffer drain of the upgrade arm end in a Close?  (bytes buffered, `onUpgradedData` threw, transport still up) -/
-def drainCloses (srv : Server) (env : Env) : Bool :=
-  env.bufferedAtUpgrade && (match srv.drainHook with | .threw _ => true | .ret _ => false) && env.upAtClose
+/-- does one of the `n` passes starting at pass `k` throw? -/
+def drainThrows (hook : Nat → Seam Unit) : Nat → Nat → Bool
+  | 0, _ => false
+  | n + 1, k =>
+    match hook k with
+    | .ret _ => drainThrows hook n (k + 1)
+    | .threw _ => true
+
+/-- does the drain loop of the upgrade arm end in a Close?  (some pass's `onUpgradedData` threw, transport still up) -/
+def drainCloses (srv : Server) (env : Env) : Bool := drainThrows srv.drainHook env.drainChunks 0 && env.upAtClose
 
 theorem drainGuarded_eq : Gen.HttpRespond.upgradeDrainGuarded = true := by decide
 
+theorem drainLoop_eq (hook : Nat → Seam Unit) (env : Env) (n k : Nat) :
+    drainLoop hook env n k = if drainThrows hook n k && env.upAtClose then [.close] else [] := by
+  induction n generalizing k with
+  | zero => simp [drainLoop, drainThrows]
+  | succ n ih =>
+    unfold drainLoop drainThrows
+    cases hk : hook k with
+    | ret u => simp only; exact ih (k + 1)
+    | threw std => cases env.upAtClose <;> simp [drainGuarded_eq]
+
 theorem drainCalls_eq (srv : Server) (env : Env) : drainCalls srv env = if drainCloses srv env then [.close] else [] := by
   unfold drainCalls drainCloses
-  cases env.bufferedAtUpgrade <;> cases srv.drainHook <;> cases env.upAtClose <;> simp [drainGuarded_eq]
+  exact drainLoop_eq _ _ _ _
+
+/-- a pass throws iff some pass `k ≤ j < k + n` has a throwing hook call -/
+theorem drainThrows_iff (hook : Nat → Seam Unit) (n k : Nat) :
+    drainThrows hook n k = true ↔ ∃ j, k ≤ j ∧ j < k + n ∧ ∃ std, hook j = .threw std := by
+  induction n generalizing k with
+  | zero => simp [drainThrows]; intro j h1 h2; omega
+  | succ n ih =>
+    unfold drainThrows
+    cases hk : hook k with
+    | threw std => simp only [true_iff]; exact ⟨k, Nat.le_refl _, by omega, std, hk⟩
+    | ret u =>
+      simp only
+      rw [ih (k + 1)]
+      constructor
+      · rintro ⟨j, h1, h2, h3⟩; exact ⟨j, by omega, by omega, h3⟩
+      · rintro ⟨j, h1, h2, std, h3⟩
+        have : j ≠ k := by intro e; subst e; rw [hk] at h3; cases h3
+        exact ⟨j, by omega, by omega, std, h3⟩
+
+/-- the loop is left at the first throw: the hook is called once per pass up to and including that pass, never after it -/
+theorem drainHookCalls_le (hook : Nat → Seam Unit) (n k : Nat) : drainHookCalls hook n k ≤ n := by
+  induction n generalizing k with
+  | zero => simp [drainHookCalls]
+  | succ n ih =>
+    unfold drainHookCalls
+    cases hook k with
+    | ret u => simp only; have := ih (k + 1); omega
+    | threw std => simp only; omega
+
+theorem drainHookCalls_no_throw (hook : Nat → Seam Unit) (n k : Nat) (h : drainThrows hook n k = false) :
+    drainHookCalls hook n k = n := by
+  induction n generalizing k with
+  | zero => simp [drainHookCalls]
+  | succ n ih =>
+    unfold drainHookCalls
+    unfold drainThrows at h
+    cases hk : hook k with
+    | ret u => rw [hk] at h; simp only at h ⊢; rw [ih (k + 1) h]; omega
+    | threw std => rw [hk] at h; simp at h
 
 theorem process_upgrade (srv : Server) (env : Env) (data : Bytes) (p : ParsedReq) (u : Resp)
     (h : env.shutdownAtEntry = false) (hp : fromWireFormat data = .ok p) (hu : upgradeSeam srv p = .ret (some u)) :
